@@ -18,7 +18,7 @@ SCORES_GRID = [None, None, 1, 0.5, 0.25, 0, '+10%', '10%', '-10%', '+0.2', '0.3'
 SCORES_PROBE = [0.00001, 1e-7, 2.5e-05, 0.004, 0.006, 100, 1.0, 3]
 VALENCES = [None, -1, 0, 1]
 CORE_CLASSES = ['Feedback', 'Feedback', 'Feedback', 'explain', 'gently', 'compliment',
-                'give_partial', 'set_correct', 'guidance', 'system_error', 'log']
+                'give_partial', 'set_correct', 'guidance', 'system_error', 'log', 'assert_unevaluable', 'assert_fails', 'assert_passes']
 
 
 def gen_feedback(rng, idx, score_probe=False):
@@ -46,6 +46,10 @@ def gen_feedback(rng, idx, score_probe=False):
             kw['value'] = rng.choice([0.5, '+10%', '-10%', 1, '25%', 0.1])
         if cls == 'log':
             kw['items'] = ['logged%d' % idx]
+        if cls.startswith('assert_'):
+            # a run-time assertion outside any group: one that fails, one that passes, one whose relation cannot be evaluated
+            # (which counts as failing: the object is put on the triggered list after its condition raised)
+            kw['which'] = rng.randrange(4)
         if r() < 0.25 and cls != 'log':
             kw['category'] = rng.choice(CATEGORIES)
         if r() < 0.2 and cls not in ('log',):
@@ -58,7 +62,7 @@ def gen_feedback(rng, idx, score_probe=False):
         kw['muted'] = rng.choice([True, False])
     if r() < 0.2:
         kw['unscored'] = rng.choice([True, False])
-    if r() < 0.35:
+    if r() < 0.35 and not cls.startswith('assert_'):
         kw['activate'] = rng.choice([True, False, False])
     if r() < 0.2:
         kw['else_message'] = 'else%d' % idx
@@ -171,7 +175,8 @@ def build(spec, order=None, first=None):
     classes = {'Feedback': Feedback, 'explain': commands.explain, 'gently': commands.gently,
                'compliment': commands.compliment, 'give_partial': commands.give_partial,
                'set_correct': commands.set_correct, 'guidance': commands.guidance,
-               'system_error': commands.system_error, 'log': commands.log}
+               'system_error': commands.system_error, 'log': commands.log,
+               'assert_unevaluable': _assertion('unevaluable'), 'assert_fails': _assertion('fails'), 'assert_passes': _assertion('passes')}
 
     def do_sup():
         for s in spec['suppressions']:
@@ -200,6 +205,18 @@ def build(spec, order=None, first=None):
     if not spec.get('sup_first'):
         do_sup()
     return report, objs
+
+
+def _assertion(outcome):
+    def make(which=0, **kw):
+        from pedal.assertions import runtime
+        table = {'unevaluable': [(runtime.assert_less, (None, 10)), (runtime.assert_greater_equal, ('text', 3)), (runtime.assert_in, (1, None)),
+                                 (runtime.assert_length_equal, (5, 1))],
+                 'fails': [(runtime.assert_equal, (3, 4)), (runtime.assert_less, (10, 3)), (runtime.assert_in, (9, [1, 2])), (runtime.assert_true, (0,))],
+                 'passes': [(runtime.assert_equal, (4, 4)), (runtime.assert_less, (1, 3)), (runtime.assert_in, (1, [1, 2])), (runtime.assert_true, (1,))]}
+        func, args = table[outcome][which % 4]
+        return func(*args, **kw)
+    return make
 
 
 def _add_one(spec, i, report, classes, objs):
